@@ -71,10 +71,12 @@ func (r *futRecorder) hook(point string, obj interface{}) {
 }
 
 var futBodies = map[string]string{
-	"value":   "(future (do (trace! :body) 42))",
-	"error":   "(future (do (trace! :body) (throw \"bad\")))",
-	"sleeps":  "(future (do (trace! :body) (sleep 15) 42))",
-	"ignores": "(future (do (trace! :body) (busy! 15) 7))",
+	"value":   "(future (do (trace! :body) (grab-ctx!) 42))",
+	"error":   "(future (do (trace! :body) (grab-ctx!) (throw \"bad\")))",
+	"sleeps":  "(future (do (trace! :body) (grab-ctx!) (sleep 15) 42))",
+	// the host call that ignores cancellation is the LAST thing the body does: a cancel arriving during it
+	// answers true, and the body still completes with a value
+	"ignores": "(future (do (trace! :body) (grab-ctx!) (busy! 15 7)))",
 }
 
 func derefOutcome(v types.MalType, e error) string {
@@ -101,12 +103,38 @@ func runFutureScenario(rec *futRecorder, rnd *rand.Rand, body string, determinis
 	}
 	ns.Set(types.Symbol{Val: "busy!"}, types.Func{Fn: func(_ context.Context, a []types.MalType) (types.MalType, error) {
 		ms := 10
-		if len(a) == 1 {
+		if len(a) >= 1 {
 			ms, _ = a[0].(int)
 		}
 		time.Sleep(time.Duration(ms) * time.Millisecond) // ignores cancellation on purpose
+		if len(a) == 2 {
+			return a[1], nil
+		}
 		return nil, nil
 	}})
+	// the context the body is evaluated under (a child of the creator's): future-cancel on a future that has
+	// completed uncancelled "changes nothing", so that context must still be alive afterwards (anything the
+	// body started under it, e.g. another future, keeps running)
+	var bodyCtx context.Context
+	var bodyCtxMu sync.Mutex
+	ns.Set(types.Symbol{Val: "grab-ctx!"}, types.Func{Fn: func(c context.Context, a []types.MalType) (types.MalType, error) {
+		bodyCtxMu.Lock()
+		bodyCtx = c
+		bodyCtxMu.Unlock()
+		return nil, nil
+	}})
+	emitBodyCtx := func() {
+		bodyCtxMu.Lock()
+		c := bodyCtx
+		bodyCtxMu.Unlock()
+		if c != nil {
+			alive := 0
+			if c.Err() == nil {
+				alive = 1
+			}
+			rec.emit(FutEvent{Ev: "bodyctx", Val: alive})
+		}
+	}
 	ctx, cancelAll := context.WithCancel(context.Background())
 	defer cancelAll()
 	rec.emit(FutEvent{Ev: "begin", Body: body})
@@ -219,8 +247,11 @@ func runFutureScenario(rec *futRecorder, rnd *rand.Rand, body string, determinis
 		op(1, "cancel", "(future-cancel f)", ctx)
 		op(1, "cancelled?", "(future-cancelled? f)", ctx)
 		op(1, "done?", "(future-done? f)", ctx)
+		emitBodyCtx()
 		once.Do(func() { close(release) })
 		op(1, "deref", "@f", ctx)
+		op(1, "cancelled?", "(future-cancelled? f)", ctx)
+		emitBodyCtx()
 	} else {
 		var wg sync.WaitGroup
 		nthreads := 2 + rnd.Intn(5)
@@ -264,6 +295,8 @@ func runFutureScenario(rec *futRecorder, rnd *rand.Rand, body string, determinis
 		// let the body finish, then make sure everybody sees the final state
 		op(0, "deref", "@f", ctx)
 		op(0, "done?", "(future-done? f)", ctx)
+		op(0, "cancelled?", "(future-cancelled? f)", ctx)
+		emitBodyCtx()
 	}
 	time.Sleep(2 * time.Millisecond)
 	runs := 0
